@@ -220,9 +220,9 @@ EXTRA_ENTRIES = ["localhost:8080", "LOCALHOST", "*.example.com", "*", "xn--bcher
 # foreign tail, and as fake brackets around an address; and the dot look-alikes (those genuinely are dots)
 FAKE_COLONS = ["\uff1a", "\ufe55", "\ufe13"]
 LOOKALIKES = (
-    [t + c + tail for t in ("localhost", "a.localhost", "example.com", "a.example.com", "127.0.0.1", "[::1]",
-                            "bücher.example")
-     for c in FAKE_COLONS for tail in ("evil.com", "80", "80@evil.com")]
+    [t + c + tail for t in ("localhost", "a.localhost", "a.example.com", "127.0.0.1", "[::1]")
+     for c in FAKE_COLONS for tail in ("evil.com", "80")]
+    + ["example.com\uff1a80@evil.com", "bücher.example\ufe55evil.com"]
     + ["\uff3b::1\uff3d", "\uff3b::1\uff3d:80", "[::1\uff3d", "\uff3b::1]", "\uff3b::2\uff3d", "\uff3blocalhost\uff3d"]
     + [t + c + "evil.com" for t in ("localhost", "example.com", "127.0.0.1") for c in ("\uff0f", "\uff20", "\uff1f", "\uff03")]
     + ["evil.com\uff20localhost", "evil.com\uff0flocalhost", "evil.com\uff1alocalhost"]
